@@ -107,9 +107,9 @@ REGISTRY = {
         ],
         "assumptions": [
             "event-time inputs respect the watermark contract (timestamped, above the last watermark); 0 < slide <= size",
-            "exactly-once / at-least-once coverage is proved for in-order arrivals with non-decreasing watermarks only (partial); the at-most bound, the interval property and the fire-time statements hold for every arrival order",
+            "exactly-once (tumbling) / at-least-once (sliding) coverage is proved for EVERY in-contract arrival order for every element outside the known class F4, which is characterised exactly: the element arrives when its key has pending slots and its timestamp is below the start of the oldest one (C13_known_class_characterised); the class is empty for in-order arrivals with non-decreasing watermarks",
         ],
-        "level_text": "Proof: event-time and transaction window managers are modelled verbatim; proved for all sizes/slides/inputs/accumulators: no panic on in-contract input, every result = one interval of one key in arrival order, at most ceil(size/slide) results per element, results fire exactly at the first watermark >= their end or at round end, transaction commits = the segments cut by the user logic. Coverage (exactly one / at least one) is proved for in-order arrivals (partial) and refuted in general by a concrete history (known finding F4). Tied to the code by running the real keyed window chain on generated scripts.",
+        "level_text": "Proof: event-time and transaction window managers are modelled verbatim; proved for all sizes/slides/inputs/accumulators: no panic on in-contract input, every result = one interval of one key in arrival order, at most ceil(size/slide) results per element, results fire exactly at the first watermark >= their end or at round end, transaction commits = the segments cut by the user logic. Coverage: for every in-contract arrival order every element outside the exactly characterised known class F4 (older than its key's oldest pending slot) is in exactly one result (tumbling) / at least one (sliding), and the elements of the class are in none; the unrestricted statement is refuted by a concrete history (F4). Tied to the code by running the real keyed window chain on generated scripts.",
         "level_note": "Trusted: Coq kernel/vm_compute, hand-written model (checked by correspondence), harness. F4 is reported as KNOWN-FINDING only when the faithful model itself loses the element. No axioms.",
         "explanation": "C13_* proved; F4 witness; correspondence over the real window chain.",
     },
